@@ -134,6 +134,22 @@ def laws(I):
       I.apply(fn(MA, 'rotate_np'), [v, q], {}), rot(v, q))
   yield 'L11', 'quat_mul_np == quat_mul', 'brax.math.quat_mul_np', lambda: (
       I.apply(fn(MA, 'quat_mul_np'), [q, p], {}), qmul(q, p))
+  # the numpy twins are fed host arrays: an INTEGER-typed left operand (identity spelled np.array([1, 0, 0, 0]), a half turn)
+  # must not decide the dtype of the product
+  def np_twin_int_left():
+    one = np.array([1, 0, 0, 0])
+    try:
+      return I.apply(fn(MA, 'quat_mul_np'), [one, p], {}), p
+    except avn.IntegerTruncation as e:
+      return asarr([uf('truncated', str(e))] * 4), p
+  yield 'L11', 'quat_mul_np(int identity, q) == q (mixed dtypes)', 'brax.math.quat_mul_np', np_twin_int_left
+  def np_rot_int_quat():
+    half = np.array([0, 1, 0, 0])
+    try:
+      return I.apply(fn(MA, 'rotate_np'), [v, half], {}), rot(v, asarr([Rat.lift(x) for x in (0, 1, 0, 0)]))
+    except avn.IntegerTruncation as e:
+      return asarr([uf('truncated', str(e))] * 3), v
+  yield 'L11', 'rotate_np(v, int half turn) == rotate (mixed dtypes)', 'brax.math.rotate_np', np_rot_int_quat
   def mjcf_twin():
     # the MJCF-side composition reads a quat attribute as MuJoCo does (normalised): equal to Transform.do for unit
     # quaternions, and to its normalised reading in general (decided with sqrt(x)^2 = x by random interpretation)
